@@ -152,7 +152,10 @@ def dict_to_cgi_params(params: dict[str, str]) -> str:
     keys.sort()
     lst = []
     for name in keys:
-        val = params[name]
+        # values arrive already quoted where their type needs it. The
+        # characters that would end the parameter or the query are not
+        # allowed to pass in any value
+        val = str(params[name]).replace('&', '%26').replace('#', '%23').replace(' ', '%20')
         lst.append(f'{name}={val}')
     return '?' + '&'.join(lst)
 
